@@ -141,3 +141,9 @@ Print Assumptions C17_quantile_equal_weights.
 Theorem C17_weights_normalised : forall lw : list R, lw <> [] -> rsum (nw lw) = 1.
 Proof. exact nw_sum_one. Qed.
 Print Assumptions C17_weights_normalised.
+
+(* ... and that hypothesis itself: one end point per sample, the last one exactly 1, for every non-empty weight vector *)
+Theorem C17_end_points : forall lw : list R, lw <> [] ->
+  last (ends lw) 1 = 1 /\ length (ends lw) = length lw.
+Proof. exact ends_last_one. Qed.
+Print Assumptions C17_end_points.
